@@ -147,6 +147,14 @@ def run(tier, v):
                 pool_lines.append({"id": pid_, "crate": crate, "workers": nw, "queue": 4096, "batch": bs, "timeout_ms": 5, "dispatchers": [frames],
                                    "perturb": vlib.seed() * 7919 + pid_ + 1, "matcher": crate == "tcp"})
                 meta.append({"seq": sid, "crate": crate, "nw": nw, "batch": bs, "conns": [c for c, _ in tr]})
+            # tight capacity: max_connections is documented as PER WORKER, so a pool whose per-worker capacity covers every connection of
+            # the trace (two tracker entries per connection for the TCP pool) loses nothing, however the flows are spread over the workers
+            ncon = len({c for c, _ in tr})
+            for nw in ((2, 4, 8) if tier != "thorough" else (2, 3, 4, 5, 8, 16)):
+                pid_ = len(pool_lines)
+                pool_lines.append({"id": pid_, "crate": crate, "workers": nw, "queue": 4096, "batch": 4, "timeout_ms": 5, "dispatchers": [frames], "cap": ncon * (2 if crate == "tcp" else 1),
+                                   "perturb": 0, "matcher": crate == "tcp"})
+                meta.append({"seq": sid, "crate": crate, "nw": nw, "batch": 4, "tight_capacity": True, "conns": [c for c, _ in tr]})
             # a slow source: the workers run into their idle timeout (5 ms) between any two packets, with full and partial batches
             for (nw, bs) in (((1, 4), (3, 32)) if tier != "thorough" else ((1, 1), (1, 4), (3, 32), (8, 2))):
                 pid_ = len(pool_lines)
